@@ -133,7 +133,9 @@ class QueryPlanner:
 
             # cut integration part
             if len(node.parts) > 1 and node.parts[0].lower() == database:
-                node.parts.pop(0)
+                # a two-part column name is <table or alias>.<column>: its first part is not the integration
+                if is_table or len(node.parts) > 2:
+                    node.parts.pop(0)
 
             if not hasattr(parent_query, 'from_table'):
                 return
